@@ -20,3 +20,15 @@ def find(ctx, oblig, diag):
             res["source"] = "request signed by the reference signer"
             return res
     return res
+
+def standing(ctx, oblig, diag):
+    for mode in ("header", "presigned"):
+        for q in (["k-1=x", "k/1=y"], ["ключ=значение", "list-type=2"], ["[z=1", "A=2"], ["a=", "b"], []):
+            res = ctx["replay_tool"](["sigv4", mode, "/bkt/key"] + q)
+            if res.get("violates"):
+                res["source"] = "request signed by the reference signer"; return res
+    for v in ("a  b", "  a   b c  "):
+        res = ctx["replay_tool"](["sigv4-header-value", v])
+        if res.get("violates"):
+            res["source"] = "signed header value with repeated inner spaces"; return res
+    return res
